@@ -228,3 +228,45 @@ func init() {
 	vRegister("HIncludeNameUnit", HIncludeNameUnit)
 	vRegister("HIncludeName", HIncludeName)
 }
+
+// HIncludeDirs (C14): resolution is relative to the directory of the INCLUDING file.
+// root includes a/x and b/y (order symbolic); both include "t"; a/t always exists,
+// b/t exists or not (symbolic); c/d/z includes "../../a/t" style names are refused.
+func HIncludeDirs() {
+	swap := vBool("swap")
+	eb := vBool("eb")
+	vDir(vPath("/vfs/p"))
+	vFile(vPath("/vfs/p/a/x"), []byte("INCLUDE t\n"))
+	vFile(vPath("/vfs/p/b/y"), []byte("INCLUDE t\n"))
+	vFile(vPath("/vfs/p/a/t"), []byte("TAG @ta\n"))
+	vFile(vPath("/vfs/p/t"), []byte("TAG @root\n")) // decoy: same name next to the root file
+	if eb {
+		vFile(vPath("/vfs/p/b/t"), []byte("TAG @tb\n"))
+	}
+	root := "INCLUDE a/x\nINCLUDE b/y\n"
+	if swap {
+		root = "INCLUDE b/y\nINCLUDE a/x\n"
+	}
+	c := NewJApiCore(fs.NewFile(vPath("/vfs/p/root.jst"), []byte(root)))
+	je := c.scanProject()
+	if !eb {
+		vAssert(je != nil, "c14-missing-file-in-subdirectory-not-reported")
+		vAssert(strings.Contains(je.Msg, "does not exist"), "c14-missing-file-message")
+		vAssert(strings.HasSuffix(je.File.Name(), "/b/y"), "c14-error-not-in-including-file")
+		vAssert(int(je.Index) == 0, "c14-error-not-at-the-include")
+		vReach("dirs-missing")
+		vObserve("err")
+		return
+	}
+	vAssert(je == nil, "c14-includes-in-subdirectories-rejected")
+	vAssert(len(c.directives) == 2, "c14-subdirectory-include-count")
+	first, second := "@ta", "@tb"
+	if swap {
+		first, second = "@tb", "@ta"
+	}
+	vAssert(c.directives[0].NamedParameter("TagName") == first && c.directives[1].NamedParameter("TagName") == second, "c14-include-resolved-against-wrong-directory")
+	vReach("dirs-ok")
+	vObserve("ok")
+}
+
+func init() { vRegister("HIncludeDirs", HIncludeDirs) }
